@@ -38,6 +38,7 @@ PROPERTIES = {
         "not_decided": ["RtpPacket.serialize/parse round trip", "RtcpPacket compound round trip", "NACK set equality (F-11)",
                         "RTX wrap/unwrap", "HeaderExtensionsMap.get/set (F-4, F-10)"],
     },
+    "C08": {"claim": "tbd", "note": "tbd", "trusted_base": COMMON},
     "C15": {
         "claim": "Proof that every integer bitrate in [0, 2^64) with up to 255 32-bit SSRCs is encodable by pack_remb_fci "
                  "and decodes to the listed SSRCs exactly, with mantissa*2^exp <= bitrate. Reduced: rate.py (estimator, "
